@@ -33,7 +33,7 @@ PropFails0(t) ==
   \cup (IF t.phase \notin {"done", "e400", "e413"} /\ ~(t.fault /\ t.phase = "status500") THEN {"Outcome"} ELSE {})
   \cup (IF t.mode = "cl" /\ t.phase = "e400" THEN {"ClOutcome"} ELSE {})
   \cup (IF t.mode = "chunked" /\ t.kind = "legal" /\ ref.st # "ok" THEN {"GeneratorNotLegal"} ELSE {})
-  \cup (IF t.mode = "chunked" /\ t.kind = "legal" /\ t.maxBody < 0 /\ ~(t.phase = "done" /\ t.out = t.expect)
+  \cup (IF t.mode = "chunked" /\ t.kind = "legal" /\ (t.maxBody < 0 \/ Len(t.expect) <= t.maxBody) /\ ~(t.phase = "done" /\ t.out = t.expect)
         THEN {"LegalAccepted"} ELSE {})
   \cup (IF t.mode = "chunked" /\ ref.st \in {"trunc", "nocrlf"} /\ t.phase = "done" THEN {"TruncRejected"} ELSE {})
   \cup (IF t.mode = "chunked" /\ ref.st = "ok" /\ t.phase = "done" /\ t.out # ref.pay THEN {"RefExact"} ELSE {})
